@@ -15,7 +15,6 @@ Ten independent sub-properties, selected by case["fn"]:
 """
 import contextlib
 import io
-import itertools
 
 import numpy as np
 from hypothesis import strategies as st
